@@ -79,7 +79,7 @@ Lemma impl_weights_asc e xs x : asc xs = true -> (2 <= length xs)%nat ->
   if e then Some (fst (hat x xs), snd (hat x xs))
   else Some (map (Z.max 0) (fst (hat x xs)), sumZ (map (Z.max 0) (fst (hat x xs)))).
 Proof.
-  intros Ha Hl. unfold impl_weights. rewrite (asc_not_desc _ Ha Hl).
+  intros Ha Hl. unfold impl_weights, impl_weights_gen. rewrite (asc_not_desc _ Ha Hl).
   destruct xs as [|a [|b l]]; cbn [length] in Hl; try lia.
   destruct (hat x (a :: b :: l)) as [w d]. destruct e; reflexivity.
 Qed.
@@ -318,7 +318,7 @@ Lemma impl_weights_desc e xs x : desc xs = true -> (2 <= length xs)%nat ->
   else Some (map (Z.max 0) (rev (fst (hat x (rev xs)))),
              sumZ (map (Z.max 0) (rev (fst (hat x (rev xs)))))).
 Proof.
-  intros Hd Hl. unfold impl_weights. rewrite Hd.
+  intros Hd Hl. unfold impl_weights, impl_weights_gen. rewrite Hd.
   destruct xs as [|a [|b l]]; cbn [length] in Hl; try lia.
   destruct (hat x (rev (a :: b :: l))) as [w d]. destruct e; reflexivity.
 Qed.
@@ -392,4 +392,14 @@ Proof.
   destruct e; injection H as <- <-; [split; auto|].
   rewrite Hrv. rewrite max0_id by (apply Forall_unitv; lia).
   rewrite sumZ_unitv by auto. split; auto.
+Qed.
+
+Lemma single_level_guarded e x0 x a b :
+  impl_weights_gen true e [x0] x = Some ([1], 1)
+  /\ sumZ [1] = 1 /\ Forall (fun n => 0 <= n) [1] /\ [1] = unitv 0 1 1
+  /\ (x = x0 -> dot [1] (map (fun c => a * c + b) [x0]) = 1 * (a * x + b)).
+Proof.
+  repeat split; try reflexivity.
+  - repeat constructor. lia.
+  - intros ->. cbn [map dot]. lia.
 Qed.
